@@ -12,6 +12,8 @@ import sys
 import tempfile
 
 NOT_BY_DESIGN = {"C09-d", "C19-c", "C19-e", "C04-g", "C07-h", "C10-h", "C19-g", "C20-g"}
+# changes that stopped breaking their property when a genuine defect they relied on was repaired in /repo (see meta.json "obsolete")
+OBSOLETE = {"C12-c", "C12-e", "C12-h"}
 # changes written against one property whose effect is a violation of another one (the check of that other property catches them)
 CROSS = {"C01-h": "C09", "C03-h": "C20"}
 
@@ -31,6 +33,9 @@ def main():
     for d in sorted(glob.glob("/verif/seeded/C*-*")):
         sid = os.path.basename(d)
         if args and not any(a in sid for a in args):
+            continue
+        if sid in OBSOLETE:
+            print(sid, "obsolete (no longer breaks the property on the repaired tree)")
             continue
         meta = json.load(open(os.path.join(d, "meta.json")))
         prop = CROSS.get(sid, meta["breaks_property"])
